@@ -1,26 +1,26 @@
 SPECIFICATION Spec
 CONSTANTS
-  Sessions = {"L1", "M1"}
-  Legacy = {"L1"}
-  InitOn = {}
+  Sessions = {"M1"}
+  Legacy = {}
+  InitOn = {"M1"}
   InitSub = {}
-  Kinds = {"resources", "templates"}
+  Kinds = {"tools"}
   NotifOf <- NotifStd
-  Uris = {}
+  Uris = {"u1"}
   Want <- WantAll
   CapOff = {}
   TTLPos = FALSE
   D = 0
   MaxTime = 0
-  MaxChanges = 3
-  MaxUpdates = 0
-  MaxCalls = 0
-  NPages = 1
+  MaxChanges = 2
+  MaxUpdates = 1
+  MaxCalls = 2
+  NPages = 2
   ModernUnsub = FALSE
   ForeignUnsub = FALSE
   Stepwise = FALSE
   Gates = FALSE
   GateNames = {"inv", "usr", "put"}
-  ClientFirst = TRUE
+  ClientFirst = FALSE
 INVARIANTS TypeOK NeverLost OnlyEntitled NoneWhenDisabled UpdatedExactlySubscribers Fresh ForgottenOnClose MapsOnlySessions
 CHECK_DEADLOCK FALSE
